@@ -171,6 +171,19 @@ TResult ==
   /\ Adopt(E) /\ l' = l + 1
   /\ UNCHANGED <<pts, metric, k, cut, ti, init, pc, pamvars, tid, lastCost>>
 
+(* stand-alone k-medoids asked for zero sweeps: no sweep is ever entered, the state derived from the
+   supplied / drawn medoids IS the result and must meet what "pamstart" demands of that state *)
+TResultNoSweep ==
+  /\ l <= Len(Ev) /\ E.ev = "result" /\ pc = "pstart" /\ sweeps = 0
+  /\ Fail(Bad("PamStart.supplied-centers-kept", init = <<>> \/ E.ctrIdx = init)
+          \cup Bad("PamStart.n_clusters", Tr.k = 0 \/ Len(E.ctrIdx) = Tr.k)
+          \cup Bad("PamStart.SelfConsistent", E.ctrIdx # <<>> /\ (\A c \in DOMAIN E.ctrIdx : E.ctrIdx[c] \in Frames) /\
+                   SelfConsistentState(E.ctrIdx, [c \in DOMAIN E.ctrIdx |-> pts[E.ctrIdx[c]]], E.asg, E.dist))
+          \cup Bad("Result.inputs-untouched", E.inputs_same)
+          \cup Bad("Result.reproducible", E.reproducible))
+  /\ Adopt(E) /\ pc' = "done" /\ l' = l + 1
+  /\ UNCHANGED <<pts, metric, k, cut, ti, init, pamvars, tid, lastCost>>
+
 (* "mpistate": a state reassembled from the ranks of a distributed run (C14): it must be
    self-consistent, keep the number of clusters, and never be worse in cost than the
    previously recorded state of the same run *)
@@ -191,7 +204,7 @@ TRaise ==
   /\ Fail({"NoException"}) /\ l' = l + 1
   /\ UNCHANGED <<vars, tid, lastCost>>
 
-TNext == TMpiState \/ TStart \/ TIter \/ TKCDone \/ TPamStart \/ TProp \/ TSweep \/ TResult \/ TRaise
+TNext == TMpiState \/ TStart \/ TIter \/ TKCDone \/ TPamStart \/ TProp \/ TSweep \/ TResult \/ TResultNoSweep \/ TRaise
 
 (* state invariants on every recorded state *)
 TInvariant == (pc \in {"loop", "pam", "done"} /\ ctrIdx # <<>> /\ \A c \in DOMAIN ctrIdx : ctrIdx[c] \in Frames
@@ -203,6 +216,7 @@ Report == (l = Len(Ev) + 1) => PrintT(<<"VERDICT", tid, fails>>)
 Matches == \/ (E.ev = "start" /\ pc = "start") \/ (E.ev = "iter" /\ pc = "loop")
            \/ (E.ev = "kcdone" /\ pc \in {"start", "loop"}) \/ (E.ev = "pamstart" /\ pc = "pstart")
            \/ (E.ev = "prop" /\ pc = "pam") \/ (E.ev = "sweep" /\ pc = "pam")
-           \/ (E.ev = "result" /\ pc = "done") \/ E.ev = "raise" \/ E.ev = "mpistate"
+           \/ (E.ev = "result" /\ pc = "done") \/ (E.ev = "result" /\ pc = "pstart" /\ sweeps = 0)
+           \/ E.ev = "raise" \/ E.ev = "mpistate"
 StuckReport == (l <= Len(Ev) /\ ~Matches) => PrintT(<<"STUCK", tid, l>>)
 =============================================================================
